@@ -82,7 +82,7 @@ curves_te = []   # (name, p, a, d, h, r, G, note, complete)
 
 def find_sw(name, p, want_a, want_h, note, rmin=11, two_torsion=None):
     from sympy import nextprime
-    for _ in range(12):
+    for _ in range(1 if p == 251 else 12):
         if _find_sw(name, p, want_a, want_h, note, rmin, two_torsion):
             return
         p = int(nextprime(p))
@@ -123,7 +123,7 @@ def _find_sw(name, p, want_a, want_h, note, rmin, two_torsion):
 def find_te(name, p, a, want_d_square, note, rmin=13, hmax=16):
     from sympy import nextprime
     p0 = p
-    for _ in range(40):
+    for _ in range(1 if p == 251 else 40):
         if p % 4 == p0 % 4 and legendre(a % p, p) == legendre(a % p0, p0):
             if _find_te(name, p, a, want_d_square, note, rmin, hmax):
                 return
@@ -189,6 +189,10 @@ find_te("TeC5", 89, 5, False, "a=5 (square), d non-square: complete law")
 find_te("TeN", 103, -1, False, "a=-1 non-square (p=3 mod 4): incomplete law", )
 find_te("TeN2", 107, 2, True, "a non-square, d square: incomplete law")
 find_te("TeBig", 1013, 1, False, "a=1, d non-square, ~1000 points: complete", rmin=50)
+# 8-bit prime: the modulus fills its top byte, so serialization flags need an extra byte (no shipped TE curve has this shape)
+find_sw("SwP251", 251, 1, '>1', "a!=0 over the 8-bit prime 251 (no spare bit in the top byte), cofactor>1", rmin=13)
+find_sw("SwP251P", 251, 1, 1, "a!=0 over the 8-bit prime 251, prime order")
+find_te("TeP251", 251, 1, False, "a=1, d non-square over the 8-bit prime 251: complete law, flags need an extra byte")
 
 fields = {}
 def field(p):
